@@ -3446,6 +3446,10 @@ def _keys_to_items(source: str) -> Iterable[Tuple[ast.AST, ast.AST]]:
 @processing.fix
 def _items_to_keys(source: str) -> Iterable[Tuple[ast.AST, ast.AST]]:
     root = core.parse(source)
+    if any(core.walk(root, ast.Name(id="_", ctx=ast.Load))):
+        # _ is read, so a loop variable called _ is not a throwaway here
+        return
+
     template = ast.comprehension(
         target=ast.Tuple(elts=[core.Wildcard("target", object), ast.Name(id="_")]),
         iter=ast.Call(
@@ -3466,6 +3470,10 @@ def _items_to_keys(source: str) -> Iterable[Tuple[ast.AST, ast.AST]]:
 @processing.fix
 def _items_to_values(source: str) -> Iterable[Tuple[ast.AST, ast.AST]]:
     root = core.parse(source)
+    if any(core.walk(root, ast.Name(id="_", ctx=ast.Load))):
+        # _ is read, so a loop variable called _ is not a throwaway here
+        return
+
     template = ast.comprehension(
         target=ast.Tuple(elts=[ast.Name(id="_"), core.Wildcard("target", object)]),
         iter=ast.Call(
@@ -3523,6 +3531,10 @@ def _for_keys_to_items(source: str) -> Iterable[Tuple[ast.AST, ast.AST]]:
 @processing.fix
 def _for_items_to_keys(source: str) -> Iterable[Tuple[ast.AST, ast.AST]]:
     root = core.parse(source)
+    if any(core.walk(root, ast.Name(id="_", ctx=ast.Load))):
+        # _ is read, so a loop variable called _ is not a throwaway here
+        return
+
     template = ast.For(
         target=ast.Tuple(elts=[core.Wildcard("target", object), ast.Name(id="_")]),
         iter=ast.Call(
@@ -3541,6 +3553,10 @@ def _for_items_to_keys(source: str) -> Iterable[Tuple[ast.AST, ast.AST]]:
 @processing.fix
 def _for_items_to_values(source: str) -> Iterable[Tuple[ast.AST, ast.AST]]:
     root = core.parse(source)
+    if any(core.walk(root, ast.Name(id="_", ctx=ast.Load))):
+        # _ is read, so a loop variable called _ is not a throwaway here
+        return
+
     template = ast.For(
         target=ast.Tuple(elts=[ast.Name(id="_"), core.Wildcard("target", object)]),
         iter=ast.Call(
@@ -3569,6 +3585,10 @@ def implicit_dict_keys_values_items(source: str) -> str:
 @processing.fix
 def redundant_enumerate(source: str) -> str:
     root = core.parse(source)
+    if any(core.walk(root, ast.Name(id="_", ctx=ast.Load))):
+        # _ is read, so a loop variable called _ is not a throwaway here
+        return
+
     iter_template = ast.Call(
         func=ast.Name(id="enumerate"), args=[core.Wildcard("iter", object)], keywords=[]
     )
@@ -3587,6 +3607,10 @@ def redundant_enumerate(source: str) -> str:
 @processing.fix
 def unused_zip_args(source: str) -> str:
     root = core.parse(source)
+    if any(core.walk(root, ast.Name(id="_", ctx=ast.Load))):
+        # _ is read, so a loop variable called _ is not a throwaway here
+        return
+
     iter_template = ast.Call(
         func=core.Wildcard(
             "func",
